@@ -853,3 +853,190 @@ def rule_try_exit(cx, tier):
                           f"leaves: after `{kind}` inside a `try` in a loop the catch point stays registered, and a later "
                           f"error in the same function is caught by a try block that has already been left", cn.file, c.line))
     return r
+
+
+# ---------------------------------------------------------------------------------------------
+# R-FORCE-EXPORT
+def _force_pruned(cx, fn, prune_params=True):
+    """successor lists of fn's CFG under the hypothesis 'top-level exporting is forced and nothing asked for an export
+    explicitly': tests of the result of force_export_assignment() take the true edge, tests of fn's own bool parameters
+    take the false edge"""
+    from .narrow import _switch_outcomes
+    cfg = cx.cfg(fn)
+    du = cx.du(fn)
+    removed = set()
+    for b in fn.blocks:
+        so = _switch_outcomes(cx, fn, b)
+        for (l, te, fe) in so or []:
+            if prune_params and 1 <= l <= fn.argc and fn.local_tstr(l) == "bool":
+                removed |= {(b.idx, t) for t in te - fe}
+            d = du.single_def(l)
+            if d is not None and d[2] == "call" and d[3].short == COMP + "force_export_assignment":
+                removed |= {(b.idx, t) for t in fe - te}
+    succ = [[t for t in ss if (i, t) not in removed] for i, ss in enumerate(cfg.succ)]
+    return succ
+
+
+def _reach(succ, starts, avoid=frozenset()):
+    seen = set()
+    work = [s for s in starts if s not in avoid]
+    while work:
+        b = work.pop()
+        if b in seen:
+            continue
+        seen.add(b)
+        work.extend(t for t in succ[b] if t not in seen and t not in avoid)
+    return seen
+
+
+def _forced_value(cx, fn, op, at_bb, depth=0, seen=None):
+    """value of a bool operand at block at_bb under the forcing hypothesis: 'true' / 'false' / ('param', n) / 'unknown'
+    (a set of these over the reaching definitions)"""
+    seen = seen if seen is not None else set()
+    c = op_const(op)
+    if c is not None:
+        v = op_int(op)
+        if v is None and isinstance(c, dict):
+            v = c.get("b")
+        if v in (1, True):
+            return {"true"}
+        if v in (0, False):
+            return {"false"}
+        return {"unknown"}
+    pl = op_place(op)
+    if pl is None or pl[1]:
+        return {"unknown"}
+    l = pl[0]
+    if 1 <= l <= fn.argc:
+        return {("param", l)}
+    if (l, at_bb) in seen or depth > 8:
+        return {"unknown"}
+    seen.add((l, at_bb))
+    du = cx.du(fn)
+    succ = _force_pruned(cx, fn)
+    live = _reach(succ, {0})
+    defs = du.defs.get(l, [])
+    def_bbs = {d[0] for d in defs}
+    out = set()
+    for d in defs:
+        if d[0] not in live:
+            continue
+        # does this definition reach at_bb without being overwritten
+        others = def_bbs - {d[0]}
+        if d[0] != at_bb and at_bb not in _reach(succ, set(succ[d[0]]), avoid=others - {at_bb}):
+            continue
+        if d[2] == "call":
+            out |= {"true"} if d[3].short == COMP + "force_export_assignment" else {"unknown"}
+        elif d[2] == "assign":
+            rv = d[3]
+            if rv[0] == "use":
+                out |= _forced_value(cx, fn, rv[1], d[0], depth + 1, seen)
+            else:
+                out.add("unknown")
+        else:
+            out.add("unknown")
+    return out or {"unknown"}
+
+
+def rule_force_export(cx, tier):
+    """R-FORCE-EXPORT: with top-level exporting forced, the export of an assigned id does not hinge on the explicit flag."""
+    r = RuleResult("R-FORCE-EXPORT",
+                   "every site where the compiler exports an assigned / imported / loop-bound id "
+                   "(`compile_value_export`) is reached whenever `force_export_assignment()` holds, whatever the explicit "
+                   "`export` flag says: the site stays reachable when the function's own bool parameters are false and the "
+                   "force test is true, or -- when it hinges on a parameter -- every caller passes a value that is true "
+                   "under that hypothesis (followed through pass-through parameters)")
+    EXPORT = COMP + "compile_value_export"
+    fns = {f.qual: f for f in compiler_methods(cx)}
+    require(COMP + "force_export_assignment" in fns, "R-FORCE-EXPORT: Compiler::force_export_assignment not found")
+    sites = [(f, c) for f in fns.values() for c in f.calls() if c.short == EXPORT]
+    r.floor("compile_value_export call sites", len(sites), 7)
+
+    def gating_params(fn, bb):
+        """bool parameters whose false outcome cuts bb off (under force = true)"""
+        from .narrow import _switch_outcomes
+        out = []
+        for p in range(1, fn.argc + 1):
+            if fn.local_tstr(p) != "bool":
+                continue
+            out.append(p)
+        return out
+
+    def callers_ok(fn, p, depth, trail):
+        """every call of fn passes a forced-true value for parameter local p"""
+        bad, unknown, n = [], [], 0
+        for g in fns.values():
+            for c in g.calls():
+                if c.short != fn.qual or len(c.args) < p:
+                    continue
+                n += 1
+                vals = _forced_value(cx, g, c.args[p - 1], c.bb)
+                for v in vals:
+                    if v == "true":
+                        continue
+                    if v == "false":
+                        bad.append((g, c, "passes `false` when only the forced export applies"))
+                    elif v == "unknown":
+                        unknown.append((g, c))
+                    elif isinstance(v, tuple):
+                        if depth >= 4 or (g.qual, v[1]) in trail:
+                            unknown.append((g, c))
+                            continue
+                        b2, u2, n2 = callers_ok(g, v[1], depth + 1, trail | {(g.qual, v[1])})
+                        if n2 == 0:
+                            unknown.append((g, c))
+                        bad.extend((g, c, f"passes its own flag on, and {why} (in {gg.qual.rsplit('::', 1)[-1]})")
+                                   for (gg, cc, why) in b2)
+                        unknown.extend(u2)
+        return bad, unknown, n
+
+    for fn, c in sites:
+        r.instances += 1
+        r.nontrivial += 1
+        succ = _force_pruned(cx, fn)
+        name = fn.qual.rsplit("::", 1)[-1]
+        if c.bb in _reach(succ, {0}):
+            r.sample({"fn": name, "line": line_of(fn, c.bb), "verdict": "reached under force with every flag false"})
+            continue
+        # which parameter does it hinge on: the site is reachable once that parameter's tests are unpruned
+        hinge = []
+        for p in gating_params(fn, c.bb):
+            from .narrow import _switch_outcomes
+            cfg = cx.cfg(fn)
+            removed = set()
+            for b in fn.blocks:
+                for (l, te, fe) in _switch_outcomes(cx, fn, b) or []:
+                    if l == p:
+                        removed |= {(b.idx, t) for t in te - fe}
+            # restore p's edges
+            succ_p = [list(ss) for ss in succ]
+            for (a, t) in removed:
+                if t in cfg.succ[a] and t not in succ_p[a]:
+                    succ_p[a].append(t)
+            if c.bb in _reach(succ_p, {0}):
+                hinge.append(p)
+        if not hinge:
+            r.undecided.append({"fn": name, "line": line_of(fn, c.bb),
+                                "why": "not reachable under the forcing hypothesis and not through one flag"})
+            continue
+        all_bad, all_unknown = [], []
+        for p in hinge:
+            bad, unknown, n = callers_ok(fn, p, 0, frozenset({(fn.qual, p)}))
+            all_bad += bad
+            all_unknown += unknown
+            if n == 0:
+                all_unknown.append((fn, c))
+        if all_bad:
+            for (g, cc, why) in all_bad:
+                gname = g.qual.rsplit("::", 1)[-1]
+                r.add(Finding("R-FORCE-EXPORT", fn.qual, f"export-hinges-on-flag:caller={gname}",
+                              f"the export in {name} is emitted only when its `{fn.local_name(hinge[0])}` parameter is "
+                              f"true, and {gname} {why}: with export_top_level_ids the ids bound through this call are "
+                              f"not exported", g.file, cc.line))
+        elif all_unknown:
+            r.undecided.append({"fn": name, "line": line_of(fn, c.bb), "why": "a caller's flag value is not decided",
+                                "callers": sorted({g.qual.rsplit("::", 1)[-1] for g, _ in all_unknown})})
+        else:
+            r.sample({"fn": name, "line": line_of(fn, c.bb), "verdict": "every caller passes a forced-true flag"})
+    r.analysed = {"export_sites": len(sites), "functions": sorted({f.qual.rsplit('::', 1)[-1] for f, _ in sites})}
+    return r
